@@ -367,8 +367,8 @@ impl StagesBuilder {
         &&& forall|s: int, g: int, x: ResourceId| 0 <= s < self.nstages() && 0 <= g < self.ngroups(s) && #[trigger] self.writes@[s]@[g]@.contains(x)
                 ==> exists|p: int| 0 <= p < self.stages@[s].groups@[g]@.len() && #[trigger] self.stages@[s].groups@[g]@[p].decl_writes().contains(x)
     }
-    pub open spec fn placed_box(&self, post: &StagesBuilder, s: int, g: int, dr: Seq<ResourceId>, dw: Seq<ResourceId>) -> bool {
-        post.stages@[s].groups@[g]@.last().decl_reads() == dr && post.stages@[s].groups@[g]@.last().decl_writes() == dw
+    pub open spec fn placed_box(&self, post: &StagesBuilder, s: int, g: int, idn: Ident) -> bool {
+        post.stages@[s].groups@[g]@.last().ident() == idn
     }
     pub open spec fn placed_dep(&self, s: int, g: int, dep: Seq<SystemId>) -> bool {
         forall|i: int| 0 <= i < dep.len() ==> self.located_in(#[trigger] dep[i], 0, s) || self.slot_ids(s, g).contains(dep[i])
@@ -460,7 +460,7 @@ impl StagesBuilder {
     // the new system's declaration (dr, dw) is recorded in its group (rs is dr up to order and duplicates)
     pub proof fn lemma_insert_covers_sup(&self, post: &StagesBuilder, s: int, g: int, id: SystemId, rs: Seq<ResourceId>, ws: Seq<ResourceId>, t: int, dr: Seq<ResourceId>, dw: Seq<ResourceId>)
         requires
-            self.lockstep(), self.covers_sup(), self.placed(post, s, g, id, rs, ws, t), self.placed_box(post, s, g, dr, dw),
+            self.lockstep(), self.covers_sup(), self.placed(post, s, g, id, rs, ws, t), post.stages@[s].groups@[g]@.last().decl_reads() == dr, post.stages@[s].groups@[g]@.last().decl_writes() == dw,
             forall|x: ResourceId| dr.contains(x) ==> rs.contains(x), forall|x: ResourceId| dw.contains(x) ==> ws.contains(x),
         ensures post.covers_sup()
     {
@@ -511,7 +511,7 @@ impl StagesBuilder {
     // ... and nothing is recorded that no member declared
     pub proof fn lemma_insert_covers_sub(&self, post: &StagesBuilder, s: int, g: int, id: SystemId, rs: Seq<ResourceId>, ws: Seq<ResourceId>, t: int, dr: Seq<ResourceId>, dw: Seq<ResourceId>)
         requires
-            self.lockstep(), self.covers_sub(), self.placed(post, s, g, id, rs, ws, t), self.placed_box(post, s, g, dr, dw),
+            self.lockstep(), self.covers_sub(), self.placed(post, s, g, id, rs, ws, t), post.stages@[s].groups@[g]@.last().decl_reads() == dr, post.stages@[s].groups@[g]@.last().decl_writes() == dw,
             forall|x: ResourceId| rs.contains(x) ==> dr.contains(x), forall|x: ResourceId| ws.contains(x) ==> dw.contains(x),
         ensures post.covers_sub()
     {
